@@ -5,6 +5,7 @@ import base64
 import json
 import os
 import random
+import shutil
 import sys
 import threading
 
@@ -21,6 +22,7 @@ ALG = {
     'sha512': 'http://www.w3.org/2001/04/xmldsig-more#rsa-sha512',
 }
 ENTS = ['kA', 'kB', 'kC']
+KEYS = ENTS + [e + '2' for e in ENTS]          # second generation after a key roll-over (Rekey in RedirectSig.tla)
 DEST = 'https://idp1.verif.example/sso'
 
 _STATE = {}
@@ -33,13 +35,8 @@ def _init():
     _STATE['entities'] = {}
     from cryptography import x509
     _STATE['pub'] = dict((e, x509.load_pem_x509_certificate(open(env.certfile(e), 'rb').read()).public_key())
-                         for e in ENTS)
-
-
-def entity(e):
-    if e not in _STATE['entities']:
-        _STATE['entities'][e] = env.make_sp(env.sp_config(key=e))
-    return _STATE['entities'][e]
+                         for e in KEYS)
+    env.install_fake_popen()
 
 
 def actual_key(url):
@@ -57,7 +54,7 @@ def actual_key(url):
     h = {'sha1': hashes.SHA1, 'sha224': hashes.SHA224, 'sha256': hashes.SHA256, 'sha384': hashes.SHA384,
          'sha512': hashes.SHA512}[[k for k, v in ALG.items() if v == alg][0]]()
     found = []
-    for e in ENTS:
+    for e in KEYS:
         try:
             _STATE['pub'][e].verify(sig, signed, padding.PKCS1v15(), h)
             found.append(e)
@@ -72,21 +69,63 @@ def query_dict(url):
 
 
 class World(object):
-    """the objects of one behaviour"""
+    """the objects of one behaviour: every entity is built by the library from a configuration that names its key
+    files; a key roll-over replaces the content of those files and builds the entity anew"""
 
     def __init__(self):
-        from saml2_tophat.sigver import RSACrypto
-        self.crypto = dict((e, RSACrypto(_STATE['keys'][e])) for e in ENTS)
+        # one directory of key files per worker process; entities of the first key generation are built once per
+        # worker (parsing a private key costs 40 ms) and live on across behaviours, an entity whose key was rolled
+        # over is built anew from the same configuration and dropped with the world
+        if 'dir' not in _STATE:
+            _STATE['dir'] = os.path.join(env.WORK, 'C15', 'w-%d' % os.getpid())
+            os.makedirs(_STATE['dir'], exist_ok=True)
+            _STATE['pool'] = {}
+            for e in ENTS:
+                self.install(e, e)
+        self.dir = _STATE['dir']
+        self.rolled = {}
         self.signer = {}
         self.wire = []
         self.n = 0
+
+    @staticmethod
+    def install(e, keyname):
+        for ext, src in (('.key', env.keyfile(keyname)), ('.crt', env.certfile(keyname))):
+            shutil.copyfile(src, os.path.join(_STATE['dir'], e + ext))
+
+    def build(self, e):
+        conf = env.sp_config(key=e)
+        conf['key_file'] = os.path.join(self.dir, e + '.key')
+        conf['cert_file'] = os.path.join(self.dir, e + '.crt')
+        return env.make_sp(conf)
+
+    def entity(self, e):
+        if e in self.rolled:
+            if self.rolled[e] is None:
+                self.rolled[e] = self.build(e)
+            return self.rolled[e]
+        if e not in _STATE['pool']:
+            _STATE['pool'][e] = self.build(e)
+        return _STATE['pool'][e]
+
+    def crypto(self, e):
+        return self.entity(e).sec.sec_backend
+
+    def close(self):
+        for e in self.rolled:
+            self.install(e, e)          # back to the first generation for the next behaviour
 
     def do(self, op):
         from saml2_tophat.pack import http_redirect_message
         from saml2_tophat.sigver import verify_redirect_signature
         name = op['op']
         if name == 'Obtain':
-            self.signer[op['e']] = (self.crypto[op['e']].get_signer(ALG[op['alg']]), op['alg'])
+            self.signer[op['e']] = (self.crypto(op['e']).get_signer(ALG[op['alg']]), op['alg'])
+            return {}
+        if name == 'Rekey':
+            self.install(op['e'], op['e'] + '2')
+            self.rolled[op['e']] = None
+            self.signer.pop(op['e'], None)
             return {}
         if name == 'Sign':
             signer, alg = self.signer[op['e']]
@@ -98,14 +137,14 @@ class World(object):
             return {'key': actual_key(url), 'alg': alg}
         if name == 'SignNow':
             self.n += 1
-            info = entity(op['e']).apply_binding(env.BINDING_REDIRECT, '<m n="%d" by="%s"/>' % (self.n, op['e']), DEST,
-                                                 relay_state='rs-%d' % self.n, sign=True, sigalg=ALG[op['alg']])
+            info = self.entity(op['e']).apply_binding(env.BINDING_REDIRECT, '<m n="%d" by="%s"/>' % (self.n, op['e']), DEST,
+                                                      relay_state='rs-%d' % self.n, sign=True, sigalg=ALG[op['alg']])
             url = dict(info['headers'])['Location']
             self.wire.append(url)
             return {'key': actual_key(url), 'alg': op['alg']}
         if name == 'Verify':
             try:
-                ok = bool(verify_redirect_signature(query_dict(self.wire[op['idx'] - 1]), self.crypto[op['e']],
+                ok = bool(verify_redirect_signature(query_dict(self.wire[op['idx'] - 1]), self.crypto(op['e']),
                                                     cert=env.cert_b64(op['cert'])))
             except Exception:
                 ok = False
@@ -184,6 +223,7 @@ def replay_behaviour(case):
         finally:
             if mode == 'threads':
                 runner.close()
+            world.close()
     return problems
 
 
@@ -193,18 +233,22 @@ def record_trace(args):
     world = World()
     runner = Threads(world)
     events = []
+    rolled = set()
     try:
         for _ in range(length):
             e = rng.choice(ENTS)
             x = rng.random()
-            if x < 0.35:
+            if x < 0.04 and e not in rolled:
+                op = {'op': 'Rekey', 'e': e}
+                rolled.add(e)
+            elif x < 0.35:
                 op = {'op': 'Obtain', 'e': e, 'alg': rng.choice(sorted(ALG))}
             elif x < 0.55 and e in world.signer:
                 op = {'op': 'Sign', 'e': e}
             elif x < 0.7:
                 op = {'op': 'SignNow', 'e': e, 'alg': rng.choice(sorted(ALG))}
             elif world.wire:
-                op = {'op': 'Verify', 'e': e, 'idx': rng.randint(1, len(world.wire)), 'cert': rng.choice(ENTS)}
+                op = {'op': 'Verify', 'e': e, 'idx': rng.randint(1, len(world.wire)), 'cert': rng.choice(KEYS)}
             else:
                 continue
             got = runner.do(op)
@@ -214,6 +258,7 @@ def record_trace(args):
             events.append(op)
     finally:
         runner.close()
+        world.close()
     return events
 
 
@@ -294,14 +339,20 @@ def main():
     chk.add_tlc(res, 'RedirectSig_shared.cfg (expected counterexample)')
     if res.violated != 'KeyOwnership':
         raise fw.Machinery('vacuity control failed: the shared-signer design should violate KeyOwnership')
+    res = tlc.run('RedirectSig.tla', 'RedirectSig_keycache.cfg', timeout=600, coverage=False)
+    chk.add_tlc(res, 'RedirectSig_keycache.cfg (parsed keys remembered by file name: expected counterexample)')
+    if res.violated != 'KeyOwnership':
+        raise fw.Machinery('vacuity control failed: the key-cache design should violate KeyOwnership')
 
     # behaviours: exhaustive short ones + simulated longer ones with 3 entities and 5 algorithms
     res = tlc.run('RedirectSigMC.tla', 'RedirectSig_beh.cfg', timeout=1800)
     chk.add_tlc(res, 'RedirectSig_beh.cfg')
     behs = [h for h in res.cases if any(o['op'] in ('Sign', 'SignNow') for o in h)]
+    rekeyed = [h for h in behs if any(o['op'] == 'Rekey' for o in h)]
     if not thorough:
         chk.rng.shuffle(behs)
-        behs = behs[:2500]
+        chk.rng.shuffle(rekeyed)
+        behs = behs[:2000] + rekeyed[:800]
     num = 200 if thorough else 30
     res = tlc.run('RedirectSigMC.tla', 'RedirectSig_sim.cfg', simulate='num=%d' % num, depth=20, seed=chk.seed + 1,
                   timeout=1800)
@@ -397,9 +448,12 @@ def main():
         chk.cov['apalache_inductive'] = {'module': 'spec/apalache/MC_RedirectSig.tla', 'init_implies_inv': ok[0], 'inv_inductive': ok[1]}
         if False in ok:
             raise fw.Machinery('Apalache refutes the inductive invariant of the repaired design')
+    import glob
+    for d in glob.glob(os.path.join(env.WORK, 'C15', 'w-*')):
+        shutil.rmtree(d, ignore_errors=True)
     chk.cov['rule'] = ('every behaviour of the bounded exhaustive run that signs something (sampled in the quick tier), simulated '
                       'longer behaviours (3 entities, 5 algorithms), each replayed sequentially and with one thread per entity; '
-                      'all 600 query-mutation scenarios; random threaded executions validated by TLC')
+                      'all 1 800 query-mutation scenarios; behaviours include key roll-over in place (entities built by the library from key files); random threaded executions validated by TLC')
     chk.assumptions = ['the key that really signed a URL is determined by verifying the transmitted octet string with every '
                        'certificate of the pool using `cryptography` directly (independent of the code under test)',
                        'steps are interleaved at the granularity of the API calls (obtain / sign / verify)']
